@@ -5,7 +5,7 @@ import collections
 import random
 from typing import Any, Dict
 
-from hivemon.checks.common import BUILTIN, run_check, std_summary, trace_case
+from hivemon.checks.common import hostile_stack, BUILTIN, run_check, std_summary, trace_case
 
 
 def build_network(net: Dict[str, Any]):
@@ -179,7 +179,9 @@ def build_cases(tier, seed):
     for i in range(n):
         s = seed * 100000 + 13000 + i
         prof = {"network": ["grid", "denver", "euclidean", "grid"][i % 4], "n_vehicles": (4, 12), "n_requests": (40, 200)}
-        cases.append(trace_case("C13", i, s, prof, BUILTIN, steps, ["C13R"]))
+        # every second run under hostile control: vehicles are re-routed from wherever a step left them inside a link
+        ctrl = BUILTIN if i % 2 == 0 else hostile_stack(p=0.25, builtin=True, kinds=["DispatchBase", "DispatchStation", "Reposition", "DispatchTrip", "Idle"])
+        cases.append(trace_case("C13", i, s, prof, ctrl, steps, ["C13R"]))
     return cases
 
 
